@@ -13,6 +13,8 @@
 //	        root of a scenario (all contents over a key subset)
 //	part D  range queries: the whole Find / TrieStore.Seek query matrix on
 //	        every content of a family
+//	part R  read operations (Find / Get / GetProof / TrieStore.Seek /
+//	        Collapse) as history steps on the same trie object (reads_test.go)
 //
 // After every step of parts A and B: StateRoot against the reference (and the
 // reference against fresh tries filled in sorted order, in reverse order and
@@ -30,8 +32,6 @@
 //     is a leaf);
 //   - whether "no results" of Find is an error or an empty list;
 //   - keys strictly extending prefix+start in a backwards Seek;
-//   - reads after a Find on a trie with unflushed changes (see
-//     assertReadsAfterFind);
 //   - that Put refuses empty keys / nil values / oversized arguments (only:
 //     a refused Put or Delete changes nothing);
 //   - refcounts, garbage and deletion of stored nodes (C11).
@@ -58,13 +58,14 @@ import (
 	"verif/lib/vk"
 )
 
-// assertReadsAfterFind: Trie.Find called on a trie with unflushed changes
-// replaces the in-memory nodes it visits by hash nodes that are not in the
-// store yet, so Get/Put on that trie fail until Flush. Find's doc comment does
-// not promise anything about it and the property's histories do not contain
-// Find as a step, so this is measured and reported (coverage key
-// reads_broken_after_find_on_unflushed_trie), not asserted.
-const assertReadsAfterFind = false
+// assertReadsAfterFind: Trie.Find called on a trie with unflushed changes used
+// to replace the in-memory nodes it visited by hash nodes that were not in the
+// store yet, so Get/Put on that trie failed until Flush. The first round only
+// counted this (coverage key reads_broken_after_find_on_unflushed_trie); it
+// was a genuine defect ("reads ... agree with that content"), repaired in
+// a610538, and is asserted since the second round (here after a single Find,
+// systematically with reads as history steps in part R, reads_test.go).
+const assertReadsAfterFind = true
 
 // ---- universe -------------------------------------------------------------------
 
@@ -187,6 +188,10 @@ type opSpec struct {
 	Val   int    `json:"val,omitempty"`
 	D     int    `json:"d,omitempty"`
 	Batch []int8 `json:"batch,omitempty"` // per universe key: 0 absent, 1 delete, 2+i put value i
+	// part R (reads_test.go): K "read"
+	R       *readSpec `json:"r,omitempty"`
+	Block   string    `json:"block,omitempty"` // K "readblock": core | core-reversed
+	Probing bool      `json:"probing,omitempty"`
 }
 
 func (o opSpec) name(u *uni) string {
@@ -201,6 +206,10 @@ func (o opSpec) name(u *uni) string {
 		return fmt.Sprintf("Flush+Collapse(%d)", o.D)
 	case "reload":
 		return "Flush+Reload"
+	case "read":
+		return o.R.name(u)
+	case "readblock":
+		return "ReadBlock(" + o.Block + ")"
 	case "batch":
 		var p []string
 		for i, b := range o.Batch {
@@ -859,7 +868,7 @@ func (e *explorer) observe(ops []opSpec, in *inst, prev []int8, s *stats) (kind,
 		}
 	}
 	// range search on the live trie (last: see assertReadsAfterFind)
-	if !in.dirty || assertReadsAfterFind {
+	if !in.dirty {
 		if kind, detail = findsOf(in.tr, u, c, s, ""); kind != "" {
 			return
 		}
@@ -882,8 +891,11 @@ func (e *explorer) observe(ops []opSpec, in *inst, prev []int8, s *stats) (kind,
 				return "find", fmt.Sprintf("Find(prefix=%s, nil, 1000) on the trie with unflushed changes: %s", shortHex(p), bad)
 			}
 			if qi == 0 {
-				if k2, _ := readsOf(inq.tr, u, c, &stats{}, "", 0); k2 != "" {
+				if k2, d2 := readsOf(inq.tr, u, c, &stats{}, "-after-find-on-unflushed-trie", 0); k2 != "" {
 					s.findBreaksReads++
+					if assertReadsAfterFind {
+						return k2, d2
+					}
 				}
 			}
 			// whatever Find did to the nodes in memory, Flush must still persist the trie
@@ -1857,7 +1869,7 @@ type job struct {
 
 func TestCheck(t *testing.T) {
 	vk.UseT(t)
-	r := vk.Start("C10", "model_checking", 110*time.Second, 24*time.Minute)
+	r := vk.Start("C10", "model_checking", 150*time.Second, 24*time.Minute)
 	debug.SetMaxStack(128 << 20) // a runaway recursion in the subject should die quickly
 	u := universe()
 	g := &global{r: r, s: newStats(), qbest: map[string]*queryCase{}, qcount: map[string]int64{}}
@@ -1914,6 +1926,12 @@ func TestCheck(t *testing.T) {
 		scNames = append(scNames, "malformed-roots")
 	}
 	bounds["C_scenarios"] = scNames
+
+	// ---- part R: read operations as history steps (reads_test.go)
+	var rCov map[string]any
+	if want("R") && r.NViolations() == 0 {
+		rCov = g.partR(u, thorough, map[mpt.TrieMode]int{mpt.ModeAll: vk.Pick(r, 3, 4), mpt.ModeLatest: vk.Pick(r, 3, 4), mpt.ModeGC: 3})
+	}
 
 	// ---- parts A and B as one pool of jobs
 	var jobs []job
@@ -2168,12 +2186,15 @@ func TestCheck(t *testing.T) {
 		"bounds":                                        bounds,
 		"universe":                                      fmt.Sprintf("keys %v, values a=aa b=bbbb empty big=%d bytes", u.KN, len(bigVal)),
 	}
+	for k, v := range rCov {
+		cov[k] = v
+	}
 	r.Finish(cov, []string{
 		"the reference root/nodes/proofs are computed from doc.go and the node encodings by code that shares nothing with package mpt; collisions of SHA-256 are not considered",
 		"Collapse is only applied right after Flush, as its doc comment requires",
 		"Find is compared for maxNum >= 1; 'no results' may be reported as an error or as an empty list",
 		"backwards Seek with a start: keys strictly extending prefix+start are ignored on both sides (not specified)",
-		"reads after a Find on a trie with unflushed changes are counted, not asserted (see reads_broken_after_find_on_unflushed_trie)",
+		"part R: Collapse is a read step only on a trie without unflushed changes (its doc comment), TrieStore.Seek reads the root of the last Flush; 'invisible in the store' = the store after the final Flush equals byte for byte the store of the same write history without the read step",
 		"refcounts and garbage collection of ModeLatest/ModeGC are C11; here those modes must only agree on roots, reads and the nodes reachable from the current root",
 	})
 }
@@ -2205,6 +2226,13 @@ func replay(g *global, u *uni) {
 			}
 		}
 		fmt.Printf("replayed tamper scenario %s 5x: violations=%d\n", c.Scenario, r.NViolations())
+	case c.Part == "R":
+		outs := map[string]bool{}
+		for i := 0; i < 5; i++ {
+			outs[fmt.Sprint(g.rReplay(&c))] = true
+			n++
+		}
+		fmt.Printf("replayed R %s %v 5x: clean=%v\n", modeName(mpt.TrieMode(c.Mode)), c.Names, outs)
 	case c.Part == "D":
 		for i := 0; i < 5; i++ {
 			g.qbest, g.qcount = map[string]*queryCase{}, map[string]int64{}
